@@ -1,6 +1,7 @@
 """C04 -- every valid Jelly stream decodes to exactly the statements it encodes."""
 from __future__ import annotations
 
+import io
 import json
 from concurrent.futures import ThreadPoolExecutor
 
@@ -214,6 +215,30 @@ def main(tier: str) -> int:
                                               [producer.den_item(d) for d in den2], frames2, data2, True)
             if len(samples) < 3 and den:
                 samples.append({"config": name, "rows": beh["rows"][:6], "denotes_first": beh["den"][:1]})
+    # valid streams that DECLARE a grouped logical subtype, parsed by the grouped parsers with the strict check on: accepted, same content as non-strict
+    from pyjelly.integrations.generic import parse as _gp  # noqa: PLC0415
+    from pyjelly.integrations.rdflib import parse as _rp  # noqa: PLC0415
+
+    _bn = {"t": "bn", "v": "b"}
+    for pt, lts in ((1, (3, 13)), (2, (4, 14, 114)), (3, (4, 14, 114))):
+        for lt in lts:
+            opt = {"r": "opt", "name": "", "pt": pt, "gen": False, "star": False, "mn": 8, "mp": 0, "md": 0, "lt": lt, "ver": 1}
+            body = ([{"r": "triple", "s": _bn, "p": _bn, "o": _bn}] if pt == 1 else [{"r": "quad", "s": _bn, "p": _bn, "o": _bn, "g": {"t": "dg"}}] if pt == 2 else
+                    [{"r": "gs", "g": {"t": "dg"}}, {"r": "triple", "s": _bn, "p": _bn, "o": _bn}, {"r": "ge"}])
+            data = wire.enc_delimited([{"rows": [opt] + body}, {"rows": body}])
+            for integ_, m_ in (("generic", _gp), ("rdflib", _rp)):
+                streams += 1
+                res_ = {}
+                for strict in (False, True):
+                    try:
+                        res_[strict] = [len(x) for x in m_.parse_jelly_grouped(io.BytesIO(data), logical_type_strict=strict)]
+                    except Exception as ex:  # noqa: BLE001
+                        res_[strict] = f"{type(ex).__name__}: {str(ex)[:80]}"
+                parses += 2
+                if isinstance(res_[True], str) or res_[True] != res_[False]:
+                    run.violation({"clause": "valid-stream-rejected", "parse": f"{integ_}.grouped(strict)", "config": f"declared-logical-type-{lt}", "integ": integ_, "delimited": True},
+                                  f"a valid stream declaring physical type {pt} and logical type {lt}: grouped parser with logical_type_strict=True gives {res_[True]}, without {res_[False]}",
+                                  {"hex": data.hex()})
     # the Jelly files committed with the repository (written by whatever tool its authors used): Tier 1 must accept them, and pyjelly must
     # read exactly what Tier 1 says they denote
     import subprocess  # noqa: PLC0415
